@@ -154,11 +154,19 @@ func (c *Ctx) numeralTheory() {
 		"(forall ((bv!s Int) (bv!g Int) (bv!z Int) (bv!n Int)) (! (=> (= (uf_ntext_4 bv!s bv!g bv!z bv!n) 1) (and (= (uf_isnum_1 bv!s) 1) (= (uf_numval_1 bv!s) (ite (= bv!g 45) (- bv!n) bv!n)))) :pattern ((uf_ntext_4 bv!s bv!g bv!z bv!n))))",
 		// a numeral is nothing else: it is not empty, and each of its characters is a digit except a sign in front
 		"(forall ((bv!s Int)) (! (=> (= (uf_isnum_1 bv!s) 1) (and (>= (strlen bv!s) 1) (forall ((bv!t Int)) (! (=> (and (<= 0 bv!t) (< bv!t (strlen bv!s))) (or (and (<= 48 (strbyte bv!s bv!t)) (<= (strbyte bv!s bv!t) 57)) (and (= bv!t 0) (or (= (strbyte bv!s 0) 43) (= (strbyte bv!s 0) 45))))) :pattern ((strbyte bv!s bv!t)))))) :pattern ((uf_isnum_1 bv!s))))",
+		// ... and it ends in a digit (handed only to the clauses labelled rej_end*: it creates a last-character term for every numeral)
+		"(forall ((bv!s Int)) (! (=> (= (uf_isnum_1 bv!s) 1) (and (<= 48 (strbyte bv!s (- (strlen bv!s) 1))) (<= (strbyte bv!s (- (strlen bv!s) 1)) 57))) :pattern ((uf_isnum_1 bv!s))))",
 		// elimination
 		"(forall ((bv!s Int) (bv!z Int) (bv!n Int)) (! (=> (= (uf_utext_3 bv!s bv!z bv!n) 1) (and (= (uf_isnum_1 bv!s) 1) (= (uf_numval_1 bv!s) bv!n))) :pattern ((uf_utext_3 bv!s bv!z bv!n))))",
 		"(forall ((bv!s Int) (bv!g Int) (bv!n Int)) (! (=> (= (uf_stext_3 bv!s bv!g bv!n) 1) (and (= (uf_isnum_1 bv!s) 1) (= (uf_numval_1 bv!s) (ite (= bv!g 45) (- bv!n) bv!n)))) :pattern ((uf_stext_3 bv!s bv!g bv!n))))",
 	}
 	for _, a := range ax {
+		if strings.Contains(a, "(=> (= (uf_isnum_1 bv!s) 1) (and (<= 48 (strbyte bv!s (- (strlen bv!s) 1)))") {
+			if c.scoped == nil {
+				c.scoped = map[string]string{}
+			}
+			c.scoped[a] = "rej_end"
+		}
 		c.assume(Term{a, SBool})
 	}
 	c.dcharAxiom()
